@@ -21,6 +21,8 @@ import (
 	"github.com/trustbloc/sidetree-core-go/pkg/batch"
 	"github.com/trustbloc/sidetree-core-go/pkg/batch/cutter"
 	"github.com/trustbloc/sidetree-core-go/pkg/batch/opqueue"
+	"github.com/trustbloc/sidetree-core-go/pkg/dochandler"
+	"github.com/trustbloc/sidetree-core-go/pkg/document"
 	"pgregory.net/rapid"
 
 	"verifharness/kit/asm"
@@ -45,6 +47,9 @@ type Step struct {
 	Suffix  string `json:"suffix,omitempty"`
 	Version uint64 `json:"version,omitempty"`
 	Expired bool   `json:"expired,omitempty"`
+	// TimeOffset: with ViaHandler the submission reaches the document handler with version time Version + TimeOffset
+	// (a time inside that protocol version, not its genesis time)
+	TimeOffset uint64 `json:"timeOffset,omitempty"`
 	// plan for the batches cut during a tick (one entry per batch, in order; missing = success)
 	Plans []Plan `json:"plans,omitempty"`
 }
@@ -66,6 +71,20 @@ type Case struct {
 	// is current at the start (-1 or absent with empty Maxes = the latest, as before)
 	Maxes   []uint `json:"maxOperationCounts,omitempty"`
 	Current int    `json:"current,omitempty"`
+	// ViaHandler (real handler only): submissions enter through a real DocumentHandler in front of the writer, as on
+	// a node, instead of calling Writer.Add directly
+	ViaHandler bool `json:"viaHandler,omitempty"`
+}
+
+// passDecorator leaves operations as they are (the default decorator would resolve the DID first).
+type passDecorator struct{}
+
+func (passDecorator) Decorate(op *operation.Operation) (*operation.Operation, error) { return op, nil }
+
+type noResolver struct{}
+
+func (noResolver) Resolve(string, ...document.ResolutionOption) (*protocol.ResolutionModel, error) {
+	return nil, errors.New("not used")
 }
 
 // maxFor is the maximum operation count of version index i.
@@ -111,6 +130,7 @@ type world struct {
 	w       *batch.Writer
 	q       *opqueue.MemQueue
 	pc      *switchClient
+	dh      *dochandler.DocumentHandler
 	cur     int // index of the current protocol version
 	cas     *wire.MemCAS
 	queue   []*mop          // model of the pending queue
@@ -366,6 +386,9 @@ func newWorld(c *Case) *world {
 		panic(err)
 	}
 	w.w = bw
+	if c.ViaHandler && c.Handler == "real" {
+		w.dh = dochandler.New(ns, nil, w.pc, bw, noResolver{}, wire.DocMetrics{}, dochandler.WithOperationDecorator(passDecorator{}))
+	}
 	return w
 }
 
@@ -395,7 +418,17 @@ func (w *world) add(s Step) {
 	id := fmt.Sprintf("op%d", w.nextID)
 	typ, req, suffix := w.request(s, id)
 	m := &mop{id: id, suffix: suffix, version: s.Version, expired: s.Expired && w.c.Handler != "real", req: req}
-	err := w.w.Add(&operation.QueuedOperation{Type: typ, OperationRequest: req, UniqueSuffix: suffix, Namespace: ns}, s.Version)
+	var err error
+	if w.dh != nil {
+		// the node's front door: the handler looks the version up for the given time and queues under its genesis time
+		if pn := ev.Catch(func() { _, err = w.dh.ProcessOperation(req, s.Version+s.TimeOffset) }); pn != "" {
+			w.fail("document handler panicked: %s", pn)
+			return
+		}
+		w.features["via-handler"] = true
+	} else {
+		err = w.w.Add(&operation.QueuedOperation{Type: typ, OperationRequest: req, UniqueSuffix: suffix, Namespace: ns}, s.Version)
+	}
 	if err != nil {
 		return // not accepted
 	}
@@ -521,6 +554,9 @@ func kindOf(msg string) string {
 	}
 }
 
+// viaHandlerGen is set by the generator while it draws a schedule whose submissions go through the document handler.
+var viaHandlerGen bool
+
 func drawAdd(t *rapid.T, curVersion *int) Step {
 	if rapid.IntRange(0, 6).Draw(t, "advanceVersion") == 0 && *curVersion < len(versions)-1 {
 		*curVersion++
@@ -529,14 +565,20 @@ func drawAdd(t *rapid.T, curVersion *int) Step {
 	if rapid.IntRange(0, 9).Draw(t, "oldVersion") == 0 {
 		v = versions[rapid.IntRange(0, len(versions)-1).Draw(t, "anyVersion")]
 	}
-	return Step{Action: "add", Suffix: rapid.SampledFrom([]string{"a", "b", "c", "d", "e"}).Draw(t, "suffix"), Version: v, Expired: rapid.IntRange(0, 9).Draw(t, "expired") == 0}
+	st := Step{Action: "add", Suffix: rapid.SampledFrom([]string{"a", "b", "c", "d", "e"}).Draw(t, "suffix"), Version: v, Expired: rapid.IntRange(0, 9).Draw(t, "expired") == 0}
+	if viaHandlerGen {
+		st.TimeOffset = uint64(rapid.IntRange(0, 9).Draw(t, "timeOffset"))
+	}
+	return st
 }
 
 func TestWriterStateMachine(t *testing.T) {
-	ev.Rule(chkSM, "rapid schedules of 5-40 steps over a real batch.Writer (never started; one processing step at a time through the verif hook), real BatchCutter and MemQueue, maxOperationCount 1-4 (in half of the schedules a different one per version, with the current version advancing while the writer runs: 'upgrade' steps), protocol versions {0, 10, 20}: Add(operation for suffix a..e under a version, optionally flagged expired), monitor tick, timeout tick, each tick with a fault plan per cut batch (handler/CAS failure - for the real OperationHandler the k-th CAS write -, anchor-write failure) and submissions arriving while the batch is in flight; handler = deterministic stub of the first-per-suffix / deferred / expired contract, or the real txnprovider.OperationHandler over a fault-injecting CAS; oracle (driven by observations - every PrepareTxnFiles call reveals the cut batch): prefix of the model queue, one version, size <= the maximum of the version current at the cut, smaller only on a timeout tick or at a version boundary; after every step the real queue equals the model (failed batch back at the head in order, in-flight additions behind it, deferred operations at the tail) and accepted = queue + anchored + expired with no operation anchored twice; at quiescence every accepted non-expired operation is in exactly one anchored batch; non-trivial = a failed batch followed by a successful one, or a deferred operation, or a version boundary inside the queue")
+	ev.Rule(chkSM, "rapid schedules of 5-40 steps over a real batch.Writer (never started; one processing step at a time through the verif hook), real BatchCutter and MemQueue, maxOperationCount 1-4 (in half of the schedules a different one per version, with the current version advancing while the writer runs: 'upgrade' steps), protocol versions {0, 10, 20}: Add(operation for suffix a..e under a version, optionally flagged expired), monitor tick, timeout tick, each tick with a fault plan per cut batch (handler/CAS failure - for the real OperationHandler the k-th CAS write -, anchor-write failure) and submissions arriving while the batch is in flight; handler = deterministic stub of the first-per-suffix / deferred / expired contract, or the real txnprovider.OperationHandler over a fault-injecting CAS (then, in half of the schedules, submissions enter through a real DocumentHandler with a version time inside the protocol version rather than its genesis time); oracle (driven by observations - every PrepareTxnFiles call reveals the cut batch): prefix of the model queue, one version, size <= the maximum of the version current at the cut, smaller only on a timeout tick or at a version boundary; after every step the real queue equals the model (failed batch back at the head in order, in-flight additions behind it, deferred operations at the tail) and accepted = queue + anchored + expired with no operation anchored twice; at quiescence every accepted non-expired operation is in exactly one anchored batch; non-trivial = a failed batch followed by a successful one, or a deferred operation, or a version boundary inside the queue")
 	ev.Rapid(t, chkSM, 400, 8000, func(t *rapid.T) {
 		c := &Case{Max: uint(rapid.IntRange(1, 4).Draw(t, "max")), Handler: rapid.SampledFrom([]string{"stub", "stub", "real"}).Draw(t, "handler")}
 		cur := 0
+		c.ViaHandler = c.Handler == "real" && rapid.Bool().Draw(t, "viaHandler")
+		viaHandlerGen = c.ViaHandler
 		upgrades := rapid.Bool().Draw(t, "versionsDiffer")
 		if upgrades {
 			// each version has its own maximum and the current version advances while the writer runs
